@@ -80,7 +80,11 @@ func (in *inliner) clone(n ast.Node, sub map[types.Object]ast.Expr) ast.Node {
 	if id, ok := n.(*ast.Ident); ok {
 		if o := in.info.Uses[id]; o != nil {
 			if repl, ok := sub[o]; ok {
-				return in.clone(repl, nil)
+				c := in.clone(repl, nil)
+				// the argument now stands where the parameter stood: containment tests by
+				// position (is this statement inside that loop body?) keep working
+				rebasePos(c, id.Pos())
+				return c
 			}
 		}
 	}
@@ -148,6 +152,23 @@ func (in *inliner) clone(n ast.Node, sub map[types.Object]ast.Expr) ast.Node {
 	if se, ok := out.(*ast.StarExpr); ok {
 		if ue, ok := ast.Unparen(se.X).(*ast.UnaryExpr); ok && ue.Op == token.AND {
 			return ue.X
+		}
+	}
+	// (*T).m(x, a…) (a function parameter bound to a method expression, called) is x.m(a…)
+	if call, ok := out.(*ast.CallExpr); ok && len(call.Args) >= 1 {
+		if sel, ok := ast.Unparen(call.Fun).(*ast.SelectorExpr); ok {
+			if sn := in.info.Selections[sel]; sn != nil && sn.Kind() == types.MethodExpr {
+				if m, isFn := sn.Obj().(*types.Func); isFn {
+					nsel := &ast.SelectorExpr{X: call.Args[0], Sel: ast.NewIdent(sel.Sel.Name)}
+					nsel.Sel.NamePos = sel.Sel.NamePos
+					in.info.Uses[nsel.Sel] = m
+					if tv, ok := in.info.Types[sel]; ok {
+						in.info.Types[nsel] = tv
+					}
+					call.Fun = nsel
+					call.Args = call.Args[1:]
+				}
+			}
 		}
 	}
 	// (&x).f (a pointer parameter bound to the address of a variable, selected through) is x.f
@@ -806,4 +827,30 @@ func (in *inliner) tryInline(lhs []ast.Expr, tok token.Token, call *ast.CallExpr
 	stmts := append(pre, body.List...)
 	stmts = append(stmts, &ast.LabeledStmt{Label: &ast.Ident{Name: label}, Stmt: &ast.EmptyStmt{}})
 	return &ast.BlockStmt{List: stmts, Lbrace: call.Pos(), Rbrace: call.End()}
+}
+
+var posType = reflect.TypeOf(token.NoPos)
+
+// rebasePos sets every position inside the (freshly cloned) subtree to pos.
+func rebasePos(n ast.Node, pos token.Pos) {
+	ast.Inspect(n, func(x ast.Node) bool {
+		if x == nil {
+			return false
+		}
+		v := reflect.ValueOf(x)
+		if v.Kind() != reflect.Ptr || v.IsNil() {
+			return true
+		}
+		st := v.Elem()
+		if st.Kind() != reflect.Struct {
+			return true
+		}
+		for i := 0; i < st.NumField(); i++ {
+			f := st.Field(i)
+			if f.Type() == posType && f.CanSet() && token.Pos(f.Int()) != token.NoPos {
+				f.SetInt(int64(pos))
+			}
+		}
+		return true
+	})
 }
